@@ -10,19 +10,19 @@ Zero == [n |-> 0, s1 |-> 0, s2 |-> 0, mx |-> 0, nm |-> 0, h |-> <<>>, b |-> 0, s
 AddStat(a, e) ==
   IF e.panic # "" THEN a ELSE
   LET errs == Flat(e)
-      md == MaskDigits(e)
+      md == IF e.layout = "pk_diff" THEN <<>> ELSE MaskDigits(e)
       hh == Hist(md, e.b)
       h0 == IF a.n = 0 THEN [v \in DOMAIN hh |-> 0] ELSE a.h
   IN [n |-> a.n + Len(errs), s1 |-> a.s1 + SumInts(errs), s2 |-> a.s2 + SumSq(errs),
       mx |-> IF MaxSeq(errs) > a.mx THEN MaxSeq(errs) ELSE a.mx, nm |-> a.nm + Len(md), h |-> [v \in DOMAIN hh |-> h0[v] + hh[v]],
-      b |-> e.b, sig2 |-> e.sigma10 * e.sigma10, bound10 |-> e.bound10, inrange |-> a.inrange /\ InRange(md, e.b)]
+      b |-> e.b, sig2 |-> (IF e.layout = "pk_diff" THEN 2 ELSE 1) * e.sigma10 * e.sigma10, bound10 |-> (IF e.layout = "pk_diff" THEN 2 ELSE 1) * e.bound10, inrange |-> a.inrange /\ InRange(md, e.b)]
 Judge(a) ==
   IF a.n = 0 THEN <<>> ELSE
      (IF VarOK(a.n, a.s2, a.sig2) THEN <<>> ELSE << <<0, "var">> >>)
   \o (IF MeanOK(a.n, a.s1, a.sig2) THEN <<>> ELSE << <<0, "mean">> >>)
-  \o (IF a.mx * 10 <= a.bound10 + 10 THEN <<>> ELSE << <<0, "max">> >>)
-  \o (IF a.inrange /\ ChiOK(a.h, a.nm, Pow2(a.b)) THEN <<>> ELSE << <<0, "uniform">> >>)
-  \o (IF a.h[-Pow2(a.b - 1)] > 0 /\ a.h[Pow2(a.b - 1) - 1] > 0 THEN <<>> ELSE << <<0, "range">> >>)
+  \o (IF a.mx * 10 <= a.bound10 + 20 THEN <<>> ELSE << <<0, "max">> >>)
+  \o (IF a.nm = 0 \/ (a.inrange /\ ChiOK(a.h, a.nm, Pow2(a.b))) THEN <<>> ELSE << <<0, "uniform">> >>)
+  \o (IF a.nm = 0 \/ (a.h[-Pow2(a.b - 1)] > 0 /\ a.h[Pow2(a.b - 1) - 1] > 0) THEN <<>> ELSE << <<0, "range">> >>)
 Verdict(e, k) ==
   CASE e.ev = "dep" -> (IF DepOK(e) THEN <<>> ELSE << <<k, "dep">> >>) \o (IF DepBeOK(e) THEN <<>> ELSE << <<k, "be">> >>)
     [] e.ev = "c19" -> (IF \A o \in 1..Len(e.outs) : C19OK(e, e.outs[o].rec) THEN <<>> ELSE << <<k, "c19">> >>)
